@@ -141,6 +141,7 @@ struct start_reduce : public task {
             auto reduce_task = alloc.new_object<start_reduce>(range, body, partitioner, alloc);
             reduce_task->my_parent = &wn;
             execute_and_wait(*reduce_task, context, wn.m_wait, context);
+            wn.rethrow_join_exception();
         }
     }
     static void run(const Range& range, Body& body, Partitioner& partitioner) {
@@ -286,6 +287,7 @@ struct start_deterministic_reduce : public task {
                 alloc.new_object<start_deterministic_reduce>(range, partitioner, body, alloc);
             deterministic_reduce_task->my_parent = &wn;
             execute_and_wait(*deterministic_reduce_task, context, wn.m_wait, context);
+            wn.rethrow_join_exception();
         }
     }
     static void run(const Range& range, Body& body, Partitioner& partitioner) {
